@@ -183,6 +183,9 @@ FIXED = [
     ("C08", "da3ae7d", "`function A(){ return function(){} }; typeof new A()` was 'object': a function returned by a constructor was not counted as an object and the new instance was kept"),
     ("C09", "8d8b250", "`/[^A]/i.test(\"a\")` was true, the dot matched \\r, \\u2028 and \\u2029, `/^b/m` did not match in \"a\\rb\" and `\"a\\n\".replace(/^/mg, \">\")` was \">a\\n\" (found by the author of seed C09-h)"),
     ("C09", "45df918", "`/(?:(a)|b){2}/.exec(\"ab\")[1]` was \"a\" (no capture reset between unrolled copies), `/(?:(a)|b){1,2}/.exec(\"a\")[1]` was undefined (the reset sat in front of the branch point) and `/(a*)b\\1+/` did not match \"b\" (the empty check hit the mandatory repetition of +) (found by the author of seed C09-h)"),
+    ("C13", "1671805", "a backslash-newline inside a string literal kept the line break in the value, `/=a/` was rejected (lexed as the /= operator), and a regex literal continued across a line break after a backslash (found by the author of seed C13-g)"),
+    ("C16", "4239d14", "`\"abc\".startsWith(/a/)`, `endsWith(/c/)` and `includes(/b/)` searched for the source text of the regular expression instead of throwing a TypeError (found by the author of seed C16-g)"),
+    ("C05", "4a2a34b", "`var f = () => { var g = function(){ return x; }; var x = 5; return g(); }; f()` threw ReferenceError and `(() => { x = 1; var x; })()` created a global x: the arrow compiler did not register the var declarations of the body before compiling it (found by the authors of seeds C15-h and C05-i)"),
     ("C20", "33cb6fa", "`'baa'.search(/a/y)` was 1, `'baa'.match(/a/y)` matched, `'aaba'.replace(/a/gy,'x')` was 'xxbx' (a sticky regex matches only where it starts); `var r=/a/g; r.lastIndex=1; 'aaaa'.match(r); r.lastIndex` stayed 1 and a failed global match or replace left lastIndex as it was (global match/replace start at 0 and leave 0); a sticky non-global match/replace did not advance or reset lastIndex"),
 ]
 
